@@ -121,6 +121,48 @@ theorem copy_hashes_from_source (hashOf : Val → Option Nat) (t : Val) (B : Lis
     an Expression (see `accepts` / `tailOK`). For every accepted list `load_no_dangling` applies. -/
 theorem load_accepts (ps : List Payload) : (loadArena ps).isSome = accepts ps := loadArena_accepts ps
 
+/-- **`load` shares no mutable object with the payload list**: provided `_load` copies the comments list and builds the
+    node's `_meta` dict itself (`SharePolicy`, read off the source on every run) and no raw VALUE / meta value is a list
+    (no parser stores one), no list or dict a loaded node points at belongs to the payload list — editing the loaded tree
+    (add_comments, meta[...] = …, annotate_types) cannot change a kept dump, a second `load` of it, or the dumped tree -/
+theorem load_shares_nothing_with_payload (pol : SharePolicy) (hc : pol.loadCopiesComments = true)
+    (hm : pol.loadBuildsMetaDict = true) (ps : List Payload) (hflat : noArrList ps = true) :
+    ∀ o ∈ loadRefsList pol ps [] 0, o ∉ payObjsList ps [] 0 := by
+  intro o ho hp
+  have h1 := loadRefsList_made pol hc hm ps [] 0 hflat o ho
+  have h2 := payObjsList_isPay ps [] 0 o hp
+  rw [h1] at h2
+  exact Bool.noConfusion h2
+
+/-- the policy of the current source -/
+def sourcePolicy : SharePolicy :=
+  ⟨SqlglotModel.Generated.C12.loadCopiesComments, SqlglotModel.Generated.C12.loadBuildsMetaDict⟩
+
+/-- the current `_load` always builds the meta dict with its comprehension (finite decision on the extracted fact; a
+    change that hands the payload's own dict to the node makes this fail) -/
+theorem source_builds_meta_dict : sourcePolicy.loadBuildsMetaDict = true := by decide +kernel
+
+/-- witness (genuine defect of the source as long as `loadCopiesComments = false`): with
+    `expression.comments = payload.get(COMMENTS)` the loaded node's comments list IS the payload's list -/
+theorem load_aliases_comments_witness :
+    Obj.pay [0] .comments ∈ loadRefsList ⟨false, true⟩ [.mk none none false (some "X") none (some ["c"]) none none] [] 0 ∧
+    Obj.pay [0] .comments ∈ payObjsList [.mk none none false (some "X") none (some ["c"]) none none] [] 0 := by
+  simp [loadRefsList, loadRefs, payObjsList, payObjs, valueObj, loadRefsTy, loadRefsMeta, payObjsTy, payObjsMeta]
+
+/-- witness for the class "the payload's own meta dict is handed to the node" -/
+theorem load_aliases_meta_witness :
+    Obj.pay [0] .mta ∈ loadRefsList ⟨true, false⟩ [.mk none none false (some "X") none none (some [.raw "k" (.int 1)]) none] [] 0 ∧
+    Obj.pay [0] .mta ∈ payObjsList [.mk none none false (some "X") none none (some [.raw "k" (.int 1)]) none] [] 0 := by
+  simp [loadRefsList, loadRefs, payObjsList, payObjs, valueObj, loadRefsTy, loadRefsMeta, payObjsTy, payObjsMeta,
+    loadRefsMetaL, payObjsMetaL, Raw.isArr]
+
+/-- why `load_shares_nothing_with_payload` excludes list-valued raw values: `node = payload[VALUE]` and the `else v` of
+    the meta comprehension store the value itself, whatever the policy -/
+theorem raw_list_value_shared_witness (pol : SharePolicy) :
+    Obj.pay [1] .value ∈ loadRefsList pol [.mk none none false (some "X") none none none none,
+        .mk (some 0) (some "k") true none none none none (some (.arr [.int 1]))] [] 0 := by
+  simp [loadRefsList, loadRefs, valueObj, loadRefsTy, loadRefsMeta]
+
 /-- facts re-extracted from sqlglot/serde.py and expressions/core.py on every run: the eight payload keys are pairwise
     distinct (a collision would make two payload fields overwrite each other), the DType marker is the modelled one,
     the guards and the meta comprehensions of dump/load/_load are the modelled ones, and `__reduce__` returns exactly
